@@ -89,6 +89,8 @@ def shards(tier):
                 out.append({'model': mname, 'run': ri, 'sensor': 'encoder', 'idx': i})
                 out.append({'model': mname, 'run': ri, 'sensor': 'tachometer', 'idx': i})
             out.append({'model': mname, 'run': ri, 'sensor': 'amperometer', 'idx': 0})
+    out += [{'mode': 'long', 'sensor': 'encoder', 'idx': 1}, {'mode': 'long', 'sensor': 'tachometer', 'idx': 0},
+            {'mode': 'long', 'sensor': 'amperometer', 'idx': 0}]
     return out
 
 
@@ -229,8 +231,54 @@ def check_threshold(acc, mname, ri, sensor, idx, op, thr, base_vals_in_thr_unit,
     acc.cases += 1
 
 
+LONG = ([0.0005, 'sec'], [1.25, 'sec'])           # 2500 steps
+
+
+def check_long(acc, sensor, idx, tier):
+    """Runs of thousands of steps: the stop instant far from the start, in the middle and near the end."""
+    spec = model_spec('osc')
+    dt, T = LONG
+    base, info = sim.run_schedule(spec, [('run', dt, T, None, None)])
+    if info['error']:
+        acc.violation('C16/long-run/base-run-error', 'unstopped run succeeds', {'kind': 'long', 'sensor': sensor, 'idx': idx}, {'error': info['error']})
+        return
+    base_t = base.times()
+    kind = sim.SENSOR_KIND[sensor][0]
+    series = raw_series(base, sensor, idx)
+    unit0 = series[0].unit
+    vals = [si.convert(q.value, kind, q.unit, unit0) if q.unit != unit0 else q.value for q in series]
+    full = len(vals)
+    for k in ((300, 1200, 2300) if tier == 'quick' else (5, 300, 999, 1000, 1001, 1200, 1999, 2000, 2300, 2498)):
+        if vals[k] == vals[k + 1]:
+            continue
+        thr = [(vals[k] + vals[k + 1]) / 2.0, unit0]
+        for op in OPS:
+            case = {'kind': 'long', 'sensor': sensor, 'idx': idx, 'op': op, 'k': k}
+            hold = [OPS[op](v, thr[0]) for v in vals]
+            kstar = next((j for j in range(1, full) if hold[j]), None)
+            expected = full if kstar is None else kstar + 1
+            m, info = sim.run_schedule(spec, [('run', dt, T, None, [sensor, idx, op, thr])])
+            acc.executions += 1
+            if info['error']:
+                acc.violation(f'C16/long-run/run-error/{info["error"][0]}', 'run succeeds', case, {'error': info['error']})
+                continue
+            got = len(m.pt.time)
+            acc.transitions += got
+            acc.nstates += 1
+            if got != expected or m.times() != base_t[:got]:
+                acc.violation(f'C16/long-run/stop-instant/{"late" if got > expected else "early" if got < expected else "axis"}/{sensor}/{op}',
+                              'run ends at the first computed instant at which the comparison holds, nothing is recorded after it', case,
+                              {'got_instants': got, 'expected_instants': expected, 'last_times': m.times()[-3:]})
+            acc.outcomes[('long-run', 'stopped-inside' if kstar is not None and kstar < full - 1 else 'never-or-at-end')] += 1
+    acc.sample({'mode': 'long run (2500 steps)', 'sensor': sensor, 'element': idx, 'dt_T': LONG})
+
+
 def run_shard(shard, tier):
     acc = Acc()
+    if shard.get('mode') == 'long':
+        check_long(acc, shard['sensor'], shard['idx'], tier)
+        acc.cases += acc.executions
+        return acc
     mname, ri, sensor, idx = shard['model'], shard['run'], shard['sensor'], shard['idx']
     spec = model_spec(mname)
     dt, T = RUNS[ri]
@@ -293,6 +341,9 @@ def run_shard(shard, tier):
 
 def replay(case):
     acc = Acc()
+    if case.get('kind') == 'long':
+        check_long(acc, case['sensor'], case['idx'], 'quick')
+        return acc.violations
     if case.get('kind') == 'thr-reuse':
         spec = model_spec(case['model'])
         dt, T = RUNS[case['run']]
